@@ -345,6 +345,51 @@ def load_module(modname, relpath, package="nmea2000", pre=None, drop_logging=Tru
     return mod
 
 
+class _StrNS:
+    """replacement for the name `str` (callable, usable in `int | str` annotations and isinstance)"""
+
+    def __call__(self, x=""):
+        return _sx_str(x)
+
+    def __or__(self, o):
+        return str | o
+
+    def __ror__(self, o):
+        return o | str
+
+    def __instancecheck__(self, inst):
+        return isinstance(inst, str)
+
+
+def _sx_str(x=""):
+    """str() inside instrumented modules: a symbolic int that can take only one value on this path renders as that
+    value; otherwise an opaque piece of text (SymRope)"""
+    if isinstance(x, P.SymInt):
+        v = x.simp()
+        if not isinstance(v, int):
+            v = _unique_value(v)
+        if isinstance(v, int):
+            return str(v)
+        return SymRope([x])
+    if isinstance(x, SymRope):
+        return x
+    if isinstance(x, P.SYM_TYPES):
+        return SymRope([x])
+    return str(x)
+
+
+sx_str = _StrNS()
+_old_real_cls = P._real_cls
+
+
+def _real_cls2(cls):
+    if cls is sx_str:
+        return str
+    return _old_real_cls(cls)
+
+
+P._real_cls = _real_cls2
+
 REBIND = dict(int=P.sx_int, bytes=P.sx_bytes, isinstance=lambda o, c: P.sx_isinstance(o, c),
               round=lambda *a: P.sx_round(*a), sum=lambda *a: P.sx_sum(*a), min=lambda *a: P.sx_min(*a))
 
@@ -379,6 +424,7 @@ def load(with_pgns=True, with_io=False, drop_logging=True, kernel_defer=True):
     if with_pgns:
         R.pgns = load_module(pk + ".pgns", "nmea2000/pgns.py", pk, drop_logging=drop_logging)
         rebind(R.pgns, ("isinstance", "int", "bytes"))
+        R.pgns.__dict__["str"] = sx_str
         for tname in ("master_dict", "master_flags_dict", "master_indirect_lookup_dict"):
             for k, tbl in R.pgns.__dict__.get(tname, {}).items():
                 if isinstance(tbl, symcoll.SymDict):
